@@ -141,6 +141,7 @@ var templateSrc = []struct {
 	{"fcq", "i", "funcall-quoted-symbol", "(funcall '- ?i ?i)", 0},
 	{"vl2", "a", "function-returning-two-values", "((lambda (a b) (values a b)) ?a ?a)", 2},
 	{"vl1", "r", "function-returning-one-value-via-values", "((lambda (a) (values a)) ?r)", 0},
+	{"vln", "a", "function-returning-nil-and-a-second-value", "((lambda (a) (values nil a)) ?a)", 1},
 	{"vl0", "a", "function-returning-no-values", "((lambda () (values)))", 0},
 	{"mvb", "l", "multiple-value-bind", "(multiple-value-bind (a b) ?a (list a b ?a+a?+b?))", 3},
 	{"mv3", "l", "multiple-value-bind-fewer-values", "(multiple-value-bind (a b c) (values ?a ?a) (list a b c))", 0},
